@@ -733,7 +733,9 @@ impl FixtureDatabase {
         let mut i = cursor_idx;
         loop {
             let line = lines[i];
-            if let Some(pos) = line.find("usefixtures(") {
+            // `.usefixtures(` as in `pytest.mark.usefixtures(` / `mark.usefixtures(`: the bare word
+            // also occurs in comments and in names such as `def test_usefixtures(`
+            if let Some(pos) = line.find(".usefixtures(") {
                 // Found the pattern — check if cursor is inside the unclosed call
                 // Count parens from the usefixtures( position to the cursor
                 let mut depth: i32 = 0;
